@@ -40,7 +40,9 @@ func (eval Evaluator) ApplyEvaluationKey(ctIn *Ciphertext, evk *EvaluationKey, o
 		return fmt.Errorf("cannot ApplyEvaluationKey: input and output Ciphertext must be of degree 1")
 	}
 
-	level := utils.Min(ctIn.Level(), opOut.Level())
+	// The key switch takes place at the level of the key when that is lower than the
+	// level of the ciphertexts (the gadget product only produces those rows).
+	level := utils.Min(utils.Min(ctIn.Level(), opOut.Level()), evk.LevelQ())
 	ringQ := eval.params.RingQ().AtLevel(level)
 
 	// Only the rows up to level are written: a receiver of higher level must not keep the other ones.
@@ -136,7 +138,7 @@ func (eval Evaluator) Relinearize(ctIn *Ciphertext, opOut *Ciphertext) (err erro
 		return fmt.Errorf("cannot relinearize: %w", err)
 	}
 
-	level := utils.Min(ctIn.Level(), opOut.Level())
+	level := utils.Min(utils.Min(ctIn.Level(), opOut.Level()), rlk.LevelQ())
 
 	ringQ := eval.params.RingQ().AtLevel(level)
 
